@@ -19,7 +19,7 @@ RULE = ('for each public grader, sampler, comparer and schedule: the default con
         'combinations, every cross-option rule violation, every documented answers format, re-construction '
         'from obj.config (graders) and kwargs/dict equivalence. Non-trivial = every construction attempt '
         'with a non-default value; distinct by (class, option, value).')
-ASSUMPTIONS = ['R12: booleans count as ints in Python and are not in the out-of-domain pools of int options; NaN in no pool',
+ASSUMPTIONS = ['R12: booleans count as ints in Python and are not in the out-of-domain pools of int options; NaN is out of domain for range-restricted numbers (tolerance, credits, cutoffs) and in no pool of unrestricted ones',
                'R13: re-construction Cls(obj.config) == obj is demanded for graders only',
                'defaults transcribed from the documentation text of each class (docstrings / docs option listings)']
 
@@ -30,11 +30,12 @@ STR1 = (['a', ';', 'ab'], [None, 5, ['a'], '', b'x'])            # at least one 
 NNINT = ([0, 1, 7], [-1, 1.5, '1', None, [1], 1j])
 POSINT = ([1, 3, 12], [0, -1, 2.5, '2', None, [1], 1j])
 ENUM3 = (['err', 'msg', None], ['x', 5, True, ['err']])
-TOL = ([0, 0.5, 1e-9, 2, '5%', '0%', ' 3.5% '], [-1, '-5%', 'abc', None, [1], '5', 1j, '%', 'five%'])
+NAN = float('nan')
+TOL = ([0, 0.5, 1e-9, 2, '5%', '0%', ' 3.5% '], [-1, '-5%', 'abc', None, [1], '5', 1j, '%', 'five%', NAN])
 STRLIST = ([[], ['a'], ['a', 'b']], ['a', [1], None, ('a',), [['a']], {'a': 1}, 5])
 CALLABLE_OR_NONE = ([None, abs, lambda n: 1], [5, 'f', [abs], {}])
-CREDIT01 = ([0, 1, 0.5, 0.25, 1.0, 0.0], [-0.1, 1.5, 'a', [0.5], 1j, 2])
-CREDIT01N = ([None, 0, 1, 0.5, 1.0], [-0.1, 1.5, 'a', [0.5], 1j, 2])
+CREDIT01 = ([0, 1, 0.5, 0.25, 1.0, 0.0], [-0.1, 1.5, 'a', [0.5], 1j, 2, NAN])
+CREDIT01N = ([None, 0, 1, 0.5, 1.0], [-0.1, 1.5, 'a', [0.5], 1j, 2, NAN])
 REALNUM = ([0, -2, 3.5, 1e6], ['a', None, [1], 1j])
 NUMRANGE = ([[1, 2], [2, 1], [0, 0], [-1.5, 3], {'start': 2, 'stop': 4}], [[1], [1, 2, 3], 'a', 5, ['a', 'b'], [1j, 2], [None, 1]])
 NUMRANGE_OPT = (NUMRANGE[0], NUMRANGE[1] + [None])
@@ -109,8 +110,8 @@ def spec_table():
                            required_pools={'subgraders': ([M.StringGrader(), M.FormulaGrader(), M.SingleListGrader(subgrader=M.StringGrader())],
                                                           [None, 5, 'StringGrader', M.StringGrader, {}])})
     sumopts = dict(math_opts)
-    sumopts.update({'samples': (2, POSINT), 'tolerance': (1e-12, TOL), 'infty_val': (1e3, ([1, 50, 1e3, 2.5], [0, -1, 'a', None])),
-                    'infty_val_fact': (80, ([1, 80, 2.5], [0, -1, 'a', None])), 'even_odd': (0, ([0, 1, 2], [3, -1, 'a', None, 1.5])),
+    sumopts.update({'samples': (2, POSINT), 'tolerance': (1e-12, TOL), 'infty_val': (1e3, ([1, 50, 1e3, 2.5], [0, -1, 'a', None, NAN])),
+                    'infty_val_fact': (80, ([1, 80, 2.5], [0, -1, 'a', None, NAN])), 'even_odd': (0, ([0, 1, 2], [3, -1, 'a', None, 1.5])),
                     'input_positions': ({'lower': 1, 'upper': 2, 'summand': 3, 'summation_variable': 4},
                                         ([{'summand': 1}, {'lower': 1, 'upper': 2}, {'lower': 2, 'upper': 1, 'summand': 3, 'summation_variable': 4}],
                                          [None, 5, {'summand': 2}, {'lower': 1, 'upper': 1}, {'summand': 0}, {'foo': 1}, {'summand': 'a'}, {'lower': 1, 'summand': 3}]))})
@@ -130,7 +131,7 @@ def spec_table():
     T['ComplexSector'] = dict(cls=M.ComplexSector, kind='sampler', required={}, options={'modulus': ([1, 3], NUMRANGE), 'argument': ([0, math.pi / 2], NUMRANGE)})
     T['RandomFunction'] = dict(cls=M.RandomFunction, kind='sampler', required={}, options={
         'input_dim': (1, POSINT), 'output_dim': (1, POSINT), 'num_terms': (3, POSINT), 'center': (0, ([0, -2.5, 3, 1j], ['a', None, [1]])),
-        'amplitude': (10, ([1, 0.5, 100], [0, -1, 'a', None, [1]])), 'complex': (False, BOOL)})
+        'amplitude': (10, ([1, 0.5, 100], [0, -1, 'a', None, [1], NAN])), 'complex': (False, BOOL)})
     arr = {'norm': ([1, 5], NUMRANGE), 'complex': None}
     T['RealVectors'] = dict(cls=M.RealVectors, kind='sampler', required={}, options={
         'shape': ((3,), ([1, 4, [2], (5,)], [0, -1, [2, 2], 'a', None, 1.5, []])), 'norm': ([1, 5], NUMRANGE), 'complex': (False, ([False], [True, None]))})
@@ -442,6 +443,11 @@ def run_cross_rules(ctx):
         ('nested_same_delimiter', lambda: M.SingleListGrader(subgrader=M.SingleListGrader(subgrader=S()), answers=[['a']])),
         ('nested_same_delimiter', lambda: M.SingleListGrader(delimiter=';', subgrader=M.SingleListGrader(delimiter=',', subgrader=M.SingleListGrader(delimiter=';', subgrader=S())))),
         ('name_collision', lambda: M.FormulaGrader(variables=['x'], user_constants={'x': 1})),
+        # suppress_warnings excuses overriding DEFAULTS, not a name declared twice
+        ('name_collision_despite_suppress_warnings', lambda: M.FormulaGrader(variables=['x'], user_constants={'x': 1}, suppress_warnings=True)),
+        ('name_collision_despite_suppress_warnings', lambda: M.MatrixGrader(variables=['m', 'c'], user_constants={'c': 3e8}, suppress_warnings=True)),
+        ('name_collision_despite_suppress_warnings', lambda: M.SumGrader(answers={'lower': '1', 'upper': '2', 'summand': 'n', 'summation_variable': 'n'},
+                                                                         variables=['c'], user_constants={'c': 2}, suppress_warnings=True)),
         ('override_default_constant', lambda: M.FormulaGrader(variables=['pi'])),
         ('override_default_constant', lambda: M.FormulaGrader(user_constants={'e': 3})),
         ('override_default_constant', lambda: M.FormulaGrader(numbered_vars=['i'])),
@@ -477,6 +483,8 @@ def run_cross_rules(ctx):
         ('specify_domain_min_length', lambda: M.helpers.calc.specify_domain(input_shapes=[1, 2], min_length=2) if hasattr(M, 'helpers') else (_ for _ in ()).throw(M.ConfigError('x'))),
         ('numerical_with_random_function', lambda: M.NumericalGrader(user_functions={'f': M.RandomFunction()})),
         ('grade_out_of_range', lambda: S(answers={'expect': 'a', 'grade_decimal': 1.5})),
+        ('grade_out_of_range', lambda: S(answers={'expect': 'a', 'grade_decimal': NAN})),
+        ('grade_out_of_range', lambda: M.FormulaGrader(answers=({'expect': 'x', 'grade_decimal': 1}, {'expect': '2*x', 'grade_decimal': NAN}), variables=['x'])),
         ('answer_bad_ok', lambda: S(answers={'expect': 'a', 'ok': 'maybe'})),
         ('answer_unknown_key', lambda: S(answers={'expect': 'a', 'foo': 1})),
         ('answer_missing_expect', lambda: S(answers={'grade_decimal': 1})),
